@@ -14,7 +14,7 @@ n=$(wc -l < $R/todo.txt); [ $n -eq 0 ] && { echo "nothing to do"; exit 0; }
 for w in $(seq 1 $W); do
   (
     V=/tmp/tsp_$$_$w; rm -rf $V; mkdir -p $V
-    rsync -a --exclude .git --exclude incoming --exclude seeded --exclude replays --exclude design-evidence /verif/ $V/verif/
+    rsync -a --exclude .git --exclude incoming --exclude seeded --exclude replays --exclude design-evidence ${V_SRC:-/verif}/ $V/verif/
     awk -v w=$w -v W=$W 'NR % W == w % W' $R/todo.txt | while read id; do
       prop=${id%%-*}; K=${id##*-}; DIR=$R/$prop/out
       S=$V/lib; rm -rf $S; mkdir -p $S; cp -r /repo/eqsig /repo/tests $S/; cp /repo/setup.py /repo/setup.cfg $S/ 2>/dev/null
